@@ -354,6 +354,9 @@ func pipeline(text string, base string, docs map[string]string, insts []any) fun
 		} else {
 			b.WriteString(";" + string(m))
 		}
+		if cm, err := json.Marshal(s.CloneSchemas()); err != nil || string(cm) != string(m) {
+			b.WriteString(";clone differs: " + string(cm))
+		}
 		return b.String()
 	}
 }
